@@ -177,7 +177,7 @@ DoFindRange(ks, peek, fill) ==
 \* calls without a key ----------------------------------------------------------
 DoClean ==
   /\ cfg.kind \in TtlKinds
-  /\ \E o \in [ret : 0..Cardinality(Keys), gone : {{}}, sz : SizeCands(cfg)] :
+  /\ \E o \in [ret : 0..Cardinality(Keys), gone : {{}}, sz : SizeNear(cfg, st)] :
         /\ OkClean(AllTags, cfg, now, st, o)
         /\ st' = ElemClean(cfg, now, st, o)
   /\ gh' = GhStep(gh)
@@ -186,7 +186,7 @@ DoClean ==
 
 DoAge ==
   /\ cfg.kind = "lfuda"
-  /\ \E o \in [ret : 0..Cardinality(Keys), sz : SizeCands(cfg)] :
+  /\ \E o \in [ret : 0..Cardinality(Keys), sz : SizeNear(cfg, st)] :
         /\ OkAge(AllTags, cfg, now, st, o)
         /\ st' = ElemAge(cfg, now, st, o)
   /\ gh' = GhAge(GhStep(gh), cfg, now, st)
@@ -195,7 +195,7 @@ DoAge ==
 
 DoUttl(d) ==
   /\ cfg.kind = "utlru"
-  /\ \E o \in [sz : SizeCands(cfg)] :
+  /\ \E o \in [sz : SizeNear(cfg, st)] :
         /\ OkUttl(AllTags, cfg, now, st, o)
         /\ st' = ElemUttl(cfg, now, st, d, o)
   /\ gh' = GhStep(gh)
